@@ -1084,6 +1084,23 @@ class Interp:
             radt = (rty or {}).get("adt")
             if radt in (R, O):
                 return self.try_fold(st, args[0], args[1], args[2], radt, depth, stack)
+        if tr == "std::iter::Iterator" and nm == "reduce" and len(args) == 2 and not fn.get("resolved_local"):
+            # `it.reduce(f)`: None for an empty iterator, otherwise the first item folded with the rest (bounded)
+            out = []
+            for s2, nxt in self.iter_next(st, args[0]):
+                if nxt[2] == "None":
+                    out.append((s2, self.mk(O, "None")))
+                    continue
+                work = [(s2, nxt[3][0])]
+                while work:
+                    s3, acc = work.pop()
+                    for s4, n2 in self.iter_next(s3, args[0]):
+                        if n2[2] == "None":
+                            out.append((s4, self.mk(O, "Some", acc)))
+                        else:
+                            for s5, r in self.apply(s4, args[1], [acc, n2[3][0]], depth + 1, stack):
+                                work.append((s5, r))
+            return out
         if tr == "std::iter::Iterator" and nm == "try_for_each" and len(args) == 2 and not fn.get("resolved_local"):
             # `it.try_for_each(f)` is `for x in it { f(x)? } Ok(())`
             rty = self.f.ty(fn["args"][-1]) if fn.get("args") else None
@@ -1092,9 +1109,24 @@ class Interp:
                 return self.try_fold(st, args[0], ("tup", ()), args[1], radt, depth, stack, unit=True)
         return None
 
-    def iter_next(self, st, itp):
+    def iter_next(self, st, itp, depth=0, stack=()):
         O = self.OPTION
         it = self.deref(st, itp) if itp[0] == "ref" else itp
+        # a lazy adaptor draws from the iterator underneath: next(map(X, f)) = next(X).map(f); copied / cloned = identity
+        from norm import short_callee as _sc
+        sc_ = _sc(it[1]) if it[0] == "call" else ""
+        if it[0] == "call" and len(it[2]) in (1, 2) and sc_.split("::")[-1] in ("map", "copied", "cloned") \
+                and not sc_.startswith(("Option::", "Result::")):
+            meth = sc_.split("::")[-1]
+            if (meth == "map" and len(it[2]) == 2 and it[2][1][0] in ("fn", "closure")) or (meth in ("copied", "cloned") and len(it[2]) == 1):
+                out = []
+                for s2, nxt in self.iter_next(st, it[2][0], depth, stack):
+                    if nxt[2] == "None" or meth != "map":
+                        out.append((s2, nxt))
+                    else:
+                        for s3, r in self.apply(s2, it[2][1], [nxt[3][0]], depth + 1, stack):
+                            out.append((s3, self.mk(O, "Some", r)))
+                return out
         rit = self.resolve(st, it)
         n = sum(1 for e in st.events if e[0] == "iter_next" and e[1] == rit)
         out = []
